@@ -110,6 +110,9 @@ def mutations(obj, rng):
         out += [('inplace-write', lambda: d['_' + k].__setitem__(i, 99)), ('whole-series', lambda: setattr(obj, k, [7] * n)),
                 ('item-write', lambda: obj.__setitem__(k, 3)), ('label-write', lambda: obj.__setitem__((k, list(d['span'])[i]), 42)),
                 ('values-setter', lambda: setattr(obj, 'values', 5))]
+    if num and hasattr(obj, 'eval'):
+        # expression evaluation over every numeric variable the object has (own namespace only)
+        out.append(('eval-own-variables', lambda: [obj.eval(f'{x} * 2 + 1') for x in num]))
     if 'status' in d['index']:
         out += [('status-write', lambda: d['_status'].__setitem__(rng.randrange(n), 'X')), ('iterations-write', lambda: d['_iterations'].__setitem__(rng.randrange(n), 77))]
     newname = f'N{rng.randrange(1000)}'
@@ -153,6 +156,31 @@ def do(f):
             return 'ok'
         except Exception as e:
             return type(e).__name__
+
+
+def eval_probe(obj, names):
+    """What eval() resolves each name to on `obj` (values, or the exception class): part of what is observable."""
+    out = {}
+    if not hasattr(obj, 'eval'):
+        return out
+    with warnings.catch_warnings():
+        warnings.simplefilter('ignore')
+        for nm in names:
+            try:
+                out[nm] = ('ok', np.asarray(obj.eval(nm)).tolist())
+            except Exception as e:
+                out[nm] = ('exc', type(e).__name__)
+    return out
+
+
+def eval_probe_missing(other, names, have):
+    """Names that first appear through the mutation (a variable added to one side): the other object never had them,
+    so the 'before' observation is what a name unknown to it gives - decided on a name nobody has."""
+    missing = [k for k in names if k not in have]
+    if not missing or not hasattr(other, 'eval'):
+        return {}
+    unknown = eval_probe(other, ['Qq_never_defined_anywhere'])['Qq_never_defined_anywhere']
+    return {k: unknown for k in missing if k not in other.__dict__['index']}
 
 
 def identity_sweep(ctx, a, b, case):
@@ -224,6 +252,8 @@ def one_history(ctx, kind, factory, route, rng):
         target, other = (a, b) if side == 'original' else (b, a)
         name, f = rng.choice(mutations(target, rng))
         before = snap.snapshot(other)
+        probe_names = sorted({k for o in (a, b) for k in o.__dict__['index'] if isinstance(k, str) and k.isidentifier() and k != 'trace'})
+        probe_before = eval_probe(other, probe_names)
         outcome = do(f)
         hist.append([side, name, outcome])
         ctx.count('mutations_applied')
@@ -232,6 +262,14 @@ def one_history(ctx, kind, factory, route, rng):
         d = snap.diff(before, snap.snapshot(other))
         if d:
             ctx.violation('mutation-visible-on-other-side', f'{kind} via {route}: {name} on the {side} changed the other object at {d[:5]}', case)
+            return
+        probe_names = sorted(set(probe_names) | {k for k in target.__dict__['index'] if isinstance(k, str) and k.isidentifier() and k != 'trace'})
+        probe_before.update({k: v for k, v in eval_probe_missing(other, probe_names, probe_before).items()})
+        probe_after = eval_probe(other, probe_names)
+        ctx.count('eval_probes_compared', len(probe_names))
+        if probe_after != probe_before:
+            bad = [k for k in probe_names if probe_after.get(k) != probe_before.get(k)]
+            ctx.violation('mutation-visible-on-other-side', f'{kind} via {route}: after {name} on the {side}, eval({bad[0]!r}) on the other object gives {probe_after[bad[0]]} (before: {probe_before[bad[0]]})', case)
             return
         dc = snap.diff(cls_before, snap.class_snapshot(type(a)))
         if dc:
